@@ -228,4 +228,19 @@ pub fn run(ctx: &Ctx, rep: &mut Report) {
     for p in gen::ep_family(&mut rng, ctx.n(4_000, 200_000) as usize).iter() {
         check_position(p, 1, &mut rng, rep);
     }
+    // castling that gives check or mate (suffixes on O-O / O-O-O), promotions that give check
+    for p in gen::castle_check_family(&mut rng, ctx.n(3_000, 150_000) as usize).iter() {
+        check_position(p, 1, &mut rng, rep);
+        rep.count("castling_gives_check_positions", 1);
+        if let Some(m) = p.legal_moves().iter().find(|m| m.castle.is_some()) {
+            let c = p.make(m);
+            if c.legal_moves().is_empty() {
+                rep.count("castling_gives_mate_positions", 1);
+            }
+        }
+    }
+    for p in gen::promotion_check_family(&mut rng, ctx.n(3_000, 150_000) as usize).iter() {
+        check_position(p, 1, &mut rng, rep);
+        rep.count("promotion_family_positions", 1);
+    }
 }
